@@ -21,6 +21,13 @@ GROUPS = {'write': 4, 'bulk': 3, 'setop': 6, 'state': 4, 'del': 3}
 NMAX = 12
 
 
+def _ident(st):
+    """a serialised state with every object replaced by its identity (keys must not be compared here)"""
+    if isinstance(st, tuple):
+        return tuple(_ident(x) for x in st)
+    return id(st)
+
+
 def arm(mod, n):
     return mod._verif_fail_alloc_after(n)
 
@@ -175,10 +182,29 @@ def _oom_step(P, ks, a, op):
     t, m, _ = prestate(dict(P, impl='c'), ks, False, kk)
     m0 = m.copy()
     m1 = model_after(m, grp, op, x, y, is_set, kind)
+    # every node is a database record with a data manager, as after a load: what the call modifies must be announced,
+    # also when the call then fails with MemoryError (the in-memory tree is what the next commit is taken from)
+    jar, pre_nodes, pre_state = None, [], {}
+    if is_tree and grp in ('write', 'bulk', 'del') and P.get('prov') == 'loaded':
+        from harness.h_kernel import _Jar, _nodes
+        jar = _Jar()
+        pre_nodes = _nodes(t)
+        embedded = len(pre_nodes) == 2 and t.__getstate__() is not None and len(t.__getstate__()) == 1
+        for i_, n_ in enumerate(pre_nodes):
+            if embedded and n_ is not t:
+                continue
+            n_._p_jar = jar
+            n_._p_oid = b'oom%05d' % i_
+        pre_state = {id(n_): _ident(n_.__getstate__()) for n_ in pre_nodes}
     arm(cmod, n if n < nalloc else -1)
     exc = perform(t, m, P, cl, grp, op, x, y, is_set, kk)
     calls = arm(cmod, -1)
     fired = n < nalloc and calls > n
+    if jar is not None:
+        for n_ in pre_nodes:
+            if n_._p_jar is jar and _ident(n_.__getstate__()) != pre_state[id(n_)] and not n_._p_changed:
+                fail('a node was modified%s but not announced to its data manager (the next commit would not store it)'
+                     % (' by a call that failed with MemoryError' if fired else ''), dict(ctx, node=type(n_).__name__, fired=fired))
     if fired:
         if exc != 'MemoryError':
             fail('an allocation failed inside the call but the caller got %s instead of MemoryError' % exc, ctx)
